@@ -181,7 +181,7 @@ def rule_r2(F, rep):
                 continue
             n += 1
             dl = t["dst"]["l"]
-            used = None
+            used = "returned" if dl == 0 else None
             for b2, si, s in body.assigns():
                 rv = s["rv"]
                 if rv["k"] == "discr" and rv["p"]["l"] == dl:
@@ -204,6 +204,87 @@ def rule_r2(F, rep):
                               "the io::Result of %s is %s in %s: an I/O failure would not become an exit-1 outcome"
                               % (callee_name(t), used or "never inspected", fn.q), body.span(t["sp"]))
     rep.floor(R, n, 5, "io::Result producing call sites")
+
+
+def rule_r2b(F, rep):
+    R = rep.rule("C12.R2b", "what is written to stdout is flushed, and the flush result handled, before the tool reports "
+                 "success: std's Stdout is line-buffered, so output without a trailing newline stays in the buffer after "
+                 "write_all and a write failure (full device, closed pipe) would otherwise only happen in the ignored flush "
+                 "at process exit — exit status 0 with nothing written")
+    from . import cfg as _cfg
+    STDOUT_W = ("<std::io::stdio::Stdout as std::io::Write>::write_all", "<std::io::stdio::Stdout as std::io::Write>::write",
+                "<std::io::stdio::StdoutLock as std::io::Write>::write_all", "<std::io::stdio::StdoutLock as std::io::Write>::write")
+    FLUSH = ("<std::io::stdio::Stdout as std::io::Write>::flush", "<std::io::stdio::StdoutLock as std::io::Write>::flush")
+
+    def calls_flush(fn):
+        return any((callee_name(t) or "") in FLUSH for _, t in fn.body.calls())
+    n = 0
+    for fn in F.fn_list:
+        if fn.crate.name not in ("rsjsonnet", "rsjsonnet_front") or fn.mac:
+            continue
+        body = fn.body
+        wsites = [bb for bb, t in body.calls() if (callee_name(t) or "") in STDOUT_W]
+        if not wsites:
+            continue
+        flush_blocks = set()
+        for bb, t in body.calls():
+            nme = callee_name(t) or ""
+            if nme in FLUSH:
+                flush_blocks.add(bb)
+            # a closure handed to a combinator (`write_all(..).and_then(|()| out.flush())`)
+            for x in t["xs"]:
+                if "t" in x:
+                    ty = body.ty(x["t"])
+                    if ty["k"] == "closure":
+                        c = F.fn_opt(ty["d"])
+                        if c is not None and calls_flush(c):
+                            flush_blocks.add(bb)
+        succ = body.succ_map()
+        for wb in wsites:
+            n += 1
+            t = body.blocks[wb]["t"]
+            start = [t["t"]] if t["t"] is not None else []
+            seen = _cfg.reachable(succ, start, blocked_nodes=list(flush_blocks))
+            rets = [b for b in seen if body.blocks[b]["t"]["k"] == "return" and not body.blocks[b]["cleanup"]]
+            # returns reached without a flush: acceptable only if that return is an error return (the write failed)
+            bad = []
+            for rb in rets:
+                # is there a path write -> rb (avoiding flush) that does not construct an Err?
+                errb = {b for b in seen for st in body.blocks[b]["s"]
+                        if st["k"] == "assign" and st["rv"]["k"] == "agg" and st["rv"].get("adt") == "core::result::Result"
+                        and st["rv"]["v"] == "Err" and not st["p"]["p"] and st["p"]["l"] == 0}
+                seen2 = _cfg.reachable(succ, start, blocked_nodes=list(flush_blocks | errb))
+                if rb in seen2:
+                    bad.append(rb)
+            ok = not bad
+            rep.ob(R, "%s|stdout-write@%s" % (fn.q, body.span(t["sp"]).rsplit("/", 1)[-1].split(":")[0]), ok,
+                   {"fn": fn.q, "write_site": body.span(t["sp"]), "flush_sites": len(flush_blocks)})
+            if not ok:
+                rep.violation(R, "%s|stdout-not-flushed" % fn.q,
+                              "%s writes the output to stdout and can return success without flushing it: with "
+                              "--no-trailing-newline (or any output whose tail has no newline) the data is still in std's line "
+                              "buffer, so `> /dev/full` exits 0 although nothing was written" % fn.q, body.span(t["sp"]))
+    rep.floor(R, n, 1, "stdout write sites")
+
+
+def rule_r2c(F, rep):
+    R = rep.rule("C12.R2c", "a closed standard output is an exit-1 outcome: the output is written through a handle on which "
+                 "a closed descriptor is an error. std::io::Stdout is not such a handle — the standard library maps EBADF on "
+                 "fds 0-2 to success (`handle_ebadf`), so `rsjsonnet ... >&-` writes nothing and still exits 0")
+    STDOUT_W = ("<std::io::stdio::Stdout as std::io::Write>::write_all", "<std::io::stdio::Stdout as std::io::Write>::write",
+                "<std::io::stdio::StdoutLock as std::io::Write>::write_all", "<std::io::stdio::StdoutLock as std::io::Write>::write")
+    n = 0
+    for fn in F.fn_list:
+        if fn.crate.name != "rsjsonnet" or fn.mac:
+            continue
+        for bb, t in fn.body.calls():
+            if (callee_name(t) or "") in STDOUT_W:
+                n += 1
+                rep.ob(R, "%s|stdout-handle" % fn.q, False, {"fn": fn.q, "handle": "std::io::Stdout", "site": fn.body.span(t["sp"])})
+                rep.violation(R, "%s|stdout|closed-descriptor-is-success" % fn.q,
+                              "%s writes the output through std::io::Stdout, which reports success when the descriptor is "
+                              "closed: `rsjsonnet -e 1 >&-` exits 0 with no output" % fn.q, fn.body.span(t["sp"]))
+    rep.trust("std::io::Stdout/Stderr treat EBADF as success (library/std/src/io/stdio.rs, handle_ebadf)")
 
 
 def rule_r4(F, rep):
@@ -292,6 +373,8 @@ def rule_r5(F, rep):
 def run(F, rep, tier):
     rule_r1_r3(F, rep)
     rule_r2(F, rep)
+    rule_r2b(F, rep)
+    rule_r2c(F, rep)
     rule_r4(F, rep)
     from . import c01
     c01.rule_r2(F, rep)
